@@ -2,7 +2,8 @@
 """print the prompt given to an independent mutation-seeding sub-agent for one property"""
 import json, sys
 pid = sys.argv[1]
-wt = "/tmp/mut/" + pid
+wt = "/tmp/mut/" + (sys.argv[2] if len(sys.argv) > 2 else pid)     # second argument: worktree id (default: the property id)
+hint = sys.argv[3] if len(sys.argv) > 3 else ""
 for l in open('/verif/properties.jsonl'):
     p = json.loads(l)
     if p['id'] == pid:
@@ -14,7 +15,7 @@ The semantic property to break:
   Statement: {p['statement']}
   Quantified over: {p['quantifier']['text']}
 
-Task: produce ONE small source change to the library under {wt}/src that (1) still compiles, (2) still passes the existing test suite — run `cd {wt} && cargo test --workspace --no-fail-fast --offline 2>&1 | tail -60` before and after: 45 tests fail at baseline because the external `wasm-tools` binary is missing; exactly the same set of tests (111 passing) must pass with your change — and (3) breaks the property above on SOME inputs only. Make it a change that needs something specific to manifest (a particular nesting shape, a multi-step sequence of API calls, an unusual but valid input, a particular combination of instrumentation modes, two cooperating code sites that each look fine alone, an off-by-one at a boundary) rather than one that ordinary use would expose at once; it should look like a plausible refactoring slip or optimisation, not sabotage. Do not add cfg flags, environment checks, randomness, or special-casing of magic constants.
+{hint}Task: produce ONE small source change to the library under {wt}/src that (1) still compiles, (2) still passes the existing test suite — run `cd {wt} && cargo test --workspace --no-fail-fast --offline 2>&1 | tail -60` before and after: 45 tests fail at baseline because the external `wasm-tools` binary is missing; exactly the same set of tests (111 passing) must pass with your change — and (3) breaks the property above on SOME inputs only. Make it a change that needs something specific to manifest (a particular nesting shape, a multi-step sequence of API calls, an unusual but valid input, a particular combination of instrumentation modes, two cooperating code sites that each look fine alone, an off-by-one at a boundary) rather than one that ordinary use would expose at once; it should look like a plausible refactoring slip or optimisation, not sabotage. Do not add cfg flags, environment checks, randomness, or special-casing of magic constants.
 
 Then write a demonstration: a standalone Rust integration test file `{wt}/tests/seeded_demo.rs` (using only the crate's public API plus dev-dependencies already in Cargo.toml, i.e. `wat` and `wasmprinter`/`wasmparser`) that FAILS with your change and PASSES on the original code. Verify both: run it with your change applied (`cargo test --offline --test seeded_demo`), then save your change with `git diff -- src > {wt}_out/patch.diff`, undo it with `git apply -R {wt}_out/patch.diff` (keep the test), run the test again on the original code, then re-apply with `git apply {wt}_out/patch.diff`. Do NOT use `git stash`: the stash is shared by every worktree of the repository and other agents are working in sibling worktrees.
 
